@@ -303,6 +303,14 @@ fn run_sync(ops: &[Value], port: u16, timeout: Duration) -> (Vec<Value>, Vec<u64
                     Err(e) => json!(format!("urlerr,{e}")),
                 }
             }
+            "transport" if op["preset"].is_string() => {
+                // the documented presets, pointed at the scripted peer: relay (implicit TLS) / starttls_relay (STARTTLS required)
+                let r = if op["preset"] == "relay" { SmtpTransport::relay("127.0.0.1") } else { SmtpTransport::starttls_relay("127.0.0.1") };
+                match r {
+                    Ok(b) => { tr = Some(b.port(port).timeout(Some(timeout)).pool_config(PoolConfig::new().max_size(0)).build()); json!("unit") }
+                    Err(e) => json!(format!("preseterr,{e}")),
+                }
+            }
             "transport" => {
                 let mut b = SmtpTransport::builder_dangerous("127.0.0.1").port(port).timeout(Some(timeout))
                     .hello_name(ClientId::Domain(s_of(&op["hello"])));
@@ -393,6 +401,13 @@ async fn run_tokio(ops: &[Value], port: u16, timeout: Duration) -> (Vec<Value>, 
                 match AsyncSmtpTransport::<Tokio1Executor>::from_url(&url) {
                     Ok(b) => { tr = Some(b.timeout(Some(timeout)).pool_config(PoolConfig::new().max_size(0)).build()); json!("unit") }
                     Err(e) => json!(format!("urlerr,{e}")),
+                }
+            }
+            "transport" if op["preset"].is_string() => {
+                let r = if op["preset"] == "relay" { AsyncSmtpTransport::<Tokio1Executor>::relay("127.0.0.1") } else { AsyncSmtpTransport::<Tokio1Executor>::starttls_relay("127.0.0.1") };
+                match r {
+                    Ok(b) => { tr = Some(b.port(port).timeout(Some(timeout)).pool_config(PoolConfig::new().max_size(0)).build()); json!("unit") }
+                    Err(e) => json!(format!("preseterr,{e}")),
                 }
             }
             "transport" => {
